@@ -318,7 +318,7 @@ def _check_update_value(chk, f):
 def _imports(ctx):
     from props.common import import_rules
 
-    import_rules(ctx, "C05", {"C05.a", "C05.b", "C05.c", "C05.d"}, "C04.g", "imported from C05 (AtomicBucket<f64> is the standard histogram storage behind Histogram::record): slot claim/publish protocol, wait-before-read, link-before-publish, claims fenced before a detached block is read — otherwise a recorded value is delivered zero times", floor=10)
+    import_rules(ctx, "C05", {"C05.a", "C05.b", "C05.c", "C05.d", "C05.e"}, "C04.g", "imported from C05 (AtomicBucket<f64> is the standard histogram storage behind Histogram::record): slot claim/publish protocol, wait-before-read, link-before-publish, claims fenced before a detached block is read — otherwise a recorded value is delivered zero times", floor=10)
     import_rules(ctx, "C10", {"C10.a"}, "C04.h", "imported from C10 (the DogStatsD recorder's CounterFn/GaugeFn storage, a sibling implementation behind the same handles): updates are single atomic read-modify-write operations whose retry closure always yields a value — otherwise an update through a handle is lost or panics", floor=3)
 
 
